@@ -185,6 +185,49 @@ ok = ok and same('both filter identically', c.filter(doc).result, d.filter(doc).
 return ok
 """
         out.append(mk_case(f"c09.kwargs_order.{cid}", params, body, pre=pres, stubs=["sym_repr"]))
+    # a literal mapping argument whose only key is the callable's own parameter name is still the literal
+    for cid, spec, dsl, doc in [
+        ("equal_to", "{'value.equal_to': {'value': a}}", "Value.equal_to({'value': a})", "[{'value': u1}, u1, 5]"),
+        ("EQ", "{'VALUE.EQ': {'value': a}}", "Value.equal_to({'value': a})", "[{'value': u1}, u1]"),
+        ("not_equal_to", "{'value.not_equal_to': {'value': a}}", "Value.not_equal_to({'value': a})", "[{'value': u1}, u1]"),
+        ("in", "{'value.in': {'value': a}}", "Value.in_({'value': a})", "['value', u1]"),
+        ("not_in", "{'value.not_in': {'value': a}}", "Value.not_in({'value': a})", "['value', u1]"),
+        ("keys_contain", "{'value.keys_contain': {'key': 'k'}}", "Value.keys_contain({'key': 'k'})", "[{'k': u1}, {'key': a}, 0]"),
+        ("at_least_one_of", "{'value.keys_contain_at_least_one_of': {'keys': ['k']}}", "Value.keys_contain_at_least_one_of({'keys': ['k']})", "[{'k': u1}, {'keys': a}, 0]"),
+        ("key.in", "{'key.in': {'value': a}}", "Key.in_({'value': a})", "{'value': u1, 0: a}"),
+        ("len.equal_to", "{'value.length.equal_to': {'value': a}}", "Value.length.equal_to({'value': a})", "[[u1], 'ab', {'value': a}]"),
+        ("gt.two_keys", "{'value.equal_to': {'value': a, 'tolerance': 1}}", "Value.equal_to({'value': a, 'tolerance': 1})", "[{'value': u1, 'tolerance': 1}, u1]"),
+    ]:
+        body = f"""
+spec = {spec}
+d = {dsl}
+c = ConditionLike.from_spec(spec)
+doc = {doc}
+ok = note('parsed condition equals the DSL-built one', c == d and type(c) is type(d))
+ok = ok and same('both filter identically', c.filter(doc).result, d.filter(doc).result)
+return ok
+"""
+        out.append(mk_case(f"c09.param_named_literal.{cid}", [("a", "int"), ("u1", "int")], body, pre=[f"BU({L}, a, u1)"], stubs=["sym_repr"]))
+    # several specs sharing one argument object (a YAML anchor / alias, a shared Python list): each still means its own DSL term
+    for cid, setup, spec, dsl, doc in [
+        ("dtype_then_in", "names = ['str', 'map']", "{'or': [{'value.dtype.in': names}, {'value.in': names}]}", "Value.dtype.in_([str, dict]) | Value.in_(['str', 'map'])", "[u1, 'map', {}, 'x']"),
+        ("in_then_dtype", "names = ['int', 'LIST']", "{'and': [{'value.not_in': names}, {'value.type.not_in': names}]}", "Value.not_in(['int', 'LIST']) & Value.dtype.not_in([int, list])", "[u1, 'int', [], 'x']"),
+        ("key_dtype_then_keys", "names = ['str', 'int']", "{'xor': [{'key.dtype.in': names}, {'value.keys_contain_any_of': names}]}", "Key.dtype.in_([str, int]) ^ Value.keys_contain_any_of('str', 'int')", "{'a': u1, 1: {'str': 0}, None: {'k': 1}}"),
+        ("is_instance_then_in", "names = ['str', 'dict']", "{'or': [{'value.is_instance': names}, {'value.in': names}]}", "Value.is_instance(str, dict) | Value.in_(['str', 'dict'])", "[u1, 'dict', {}, 0]"),
+        ("two_parses", "names = ['int', 'float']", "{'value.in': names}", "Value.in_(['int', 'float'])", "[u1, 'int', 1.5]"),
+    ]:
+        pre_parse = "ConditionLike.from_spec({'value.dtype.not_in': names})\n" if cid == "two_parses" else ""
+        body = f"""
+{setup}
+{pre_parse}spec = {spec}
+d = {dsl}
+c = ConditionLike.from_spec(spec)
+doc = {doc}
+ok = note('parsed condition equals the DSL-built one', c == d and type(c) is type(d))
+ok = ok and same('both filter identically', c.filter(doc).result, d.filter(doc).result)
+return ok
+"""
+        out.append(mk_case(f"c09.shared_argument.{cid}", [("u1", U)], body, pre=[f"BU({L}, u1)"], stubs=["sym_repr"]))
     # history: the outcome of a parse must not depend on what was parsed before it in the process
     seqs = [
         [("value.length.eq", "n", "Value.length.equal_to(n)"), ("value.keys_contain", "'k'", "Value.keys_contain('k')"), ("value.dtype.in", "['int']", "Value.dtype.in_([int])"), ("value.items_contain", "{'k': n}", "Value.items_contain(k=n)")],
